@@ -301,3 +301,22 @@ Qed.
 Theorem rescale_double_round_refuted :
   exists p x, double_round p = true /\ expand_rescale p x <> golden_rescale p x.
 Proof. exists (mkR 0 0 1 1 127 (-128) true), 1. split; [reflexivity|]. vm_compute. discriminate. Qed.
+
+(* ------------------------------------------------------------------ per-channel rescale *)
+Theorem rescale_pc_expand_vs_golden q c x :
+  rescale_safe_pc q c x = true -> expand_rescale_pc q x = golden_rescale_pc q c x.
+Proof.
+  unfold rescale_safe_pc, expand_rescale_pc, golden_rescale_pc. intros H.
+  apply andb_true_iff in H as [H Hs]. apply andb_true_iff in H as [H Hm].
+  apply Z.eqb_eq in Hs. apply Z.eqb_eq in Hm.
+  assert (Hc : chan q c = chan q 0) by (unfold chan; rewrite Hm, Hs; reflexivity).
+  rewrite <- Hc. apply rescale_expand_vs_golden. exact H.
+Qed.
+
+(* F18, per-channel part: a channel with its own multiplier is computed with the multiplier of channel 0 *)
+Theorem rescale_per_channel_refuted :
+  exists q c x, pc_dr q = false /\ rescale_safe (chan q c) x = true /\ expand_rescale_pc q x <> golden_rescale_pc q c x.
+Proof.
+  exists (mkRpc 0 0 [1; 2] [1; 1] 127 (-128) false), 1%nat, 4.
+  split; [reflexivity|]. split; [reflexivity|]. vm_compute. discriminate.
+Qed.
